@@ -116,7 +116,8 @@ Record cfg := {
   c_initial : N;                             (* initial retransmit interval (ms) *)
   c_backoff : bool;
   c_flags : list (N * bool * bool * bool);   (* flight, retransmit, last send, last receive: from flight13 *)
-  c_fl : list (N * list rec)                 (* the records of each flight, in sending order *)
+  c_fl : list (N * list rec);                (* the records of each flight, in sending order *)
+  c_dualc : bool                             (* dual-stack client: the version is negotiated before the state machine starts *)
 }.
 
 Fixpoint flags_of (f : N) (t : list (N * bool * bool * bool)) : bool * bool * bool :=
@@ -142,7 +143,11 @@ Definition mk_cfg (flags : list (N * bool * bool * bool))
            (raw : N * bool * list (N * list (N * N * N * N * N * N * N))) (initial : N) (backoff : bool) : cfg :=
   let '(mtu, hrr, fls) := raw in
   {| c_mtu := mtu; c_hrr := hrr; c_initial := initial; c_backoff := backoff; c_flags := flags;
-     c_fl := map (fun p => (fst p, map mk_rec (snd p))) fls |}.
+     c_fl := map (fun p => (fst p, map mk_rec (snd p))) fls; c_dualc := false |}.
+
+Definition dual_client (c : cfg) : cfg :=
+  {| c_mtu := c_mtu c; c_hrr := c_hrr c; c_initial := c_initial c; c_backoff := c_backoff c; c_flags := c_flags c;
+     c_fl := c_fl c; c_dualc := true |}.
 
 (* conn.go compactPreparedRecords: a record opens a new datagram when the current one is not
    empty and would reach the MTU *)
@@ -171,6 +176,7 @@ Record ep := {
   e_retr : bool;                      (* fsm13.retransmit *)
   e_reply : bool;                     (* fsm13.replyOnly *)
   e_lastsent : N;                     (* fsm13.lastSent *)
+  e_sent : bool;                      (* fsm13.lastSent is set: the state machine itself has sent something *)
   e_interval : N;                     (* fsm13.retransmitInterval *)
   e_timer : N;                        (* deadline of the timer of wait() *)
   e_out : list rec;                   (* fsm13.flights: what a (re)transmission puts on the wire *)
@@ -194,7 +200,7 @@ Record ep := {
 
 Definition set_rx (e : ep) recvseq fbcur frags cache repoch lepoch queue toack : ep :=
   {| e_client := e_client e; e_flight := e_flight e; e_fst := e_fst e; e_retr := e_retr e; e_reply := e_reply e;
-     e_lastsent := e_lastsent e; e_interval := e_interval e; e_timer := e_timer e; e_out := e_out e;
+     e_lastsent := e_lastsent e; e_sent := e_sent e; e_interval := e_interval e; e_timer := e_timer e; e_out := e_out e;
      e_pending := e_pending e; e_est := e_est e; e_nstinit := e_nstinit e; e_nst := e_nst e; e_nsti := e_nsti e;
      e_nstt := e_nstt e;
      e_recvseq := recvseq; e_fbcur := fbcur; e_frags := frags; e_cache := cache; e_repoch := repoch;
@@ -202,7 +208,7 @@ Definition set_rx (e : ep) recvseq fbcur frags cache repoch lepoch queue toack :
 
 Definition set_fsm (e : ep) flight fst retr reply lastsent interval timer out pending est : ep :=
   {| e_client := e_client e; e_flight := flight; e_fst := fst; e_retr := retr; e_reply := reply;
-     e_lastsent := lastsent; e_interval := interval; e_timer := timer; e_out := out;
+     e_lastsent := lastsent; e_sent := e_sent e; e_interval := interval; e_timer := timer; e_out := out;
      e_pending := pending; e_est := est; e_nstinit := e_nstinit e; e_nst := e_nst e; e_nsti := e_nsti e;
      e_nstt := e_nstt e;
      e_recvseq := e_recvseq e; e_fbcur := e_fbcur e; e_frags := e_frags e; e_cache := e_cache e;
@@ -210,8 +216,16 @@ Definition set_fsm (e : ep) flight fst retr reply lastsent interval timer out pe
 
 Definition set_nst (e : ep) init nst nsti nstt : ep :=
   {| e_client := e_client e; e_flight := e_flight e; e_fst := e_fst e; e_retr := e_retr e; e_reply := e_reply e;
-     e_lastsent := e_lastsent e; e_interval := e_interval e; e_timer := e_timer e; e_out := e_out e;
+     e_lastsent := e_lastsent e; e_sent := e_sent e; e_interval := e_interval e; e_timer := e_timer e; e_out := e_out e;
      e_pending := e_pending e; e_est := e_est e; e_nstinit := init; e_nst := nst; e_nsti := nsti; e_nstt := nstt;
+     e_recvseq := e_recvseq e; e_fbcur := e_fbcur e; e_frags := e_frags e; e_cache := e_cache e;
+     e_repoch := e_repoch e; e_lepoch := e_lepoch e; e_queue := e_queue e; e_toack := e_toack e |}.
+
+Definition set_sent (e : ep) (b : bool) : ep :=
+  {| e_client := e_client e; e_flight := e_flight e; e_fst := e_fst e; e_retr := e_retr e; e_reply := e_reply e;
+     e_lastsent := e_lastsent e; e_sent := b; e_interval := e_interval e; e_timer := e_timer e; e_out := e_out e;
+     e_pending := e_pending e; e_est := e_est e; e_nstinit := e_nstinit e; e_nst := e_nst e; e_nsti := e_nsti e;
+     e_nstt := e_nstt e;
      e_recvseq := e_recvseq e; e_fbcur := e_fbcur e; e_frags := e_frags e; e_cache := e_cache e;
      e_repoch := e_repoch e; e_lepoch := e_lepoch e; e_queue := e_queue e; e_toack := e_toack e |}.
 
@@ -423,8 +437,8 @@ Definition do_send (c : cfg) (e : ep) (now : N) : ep * list dgram :=
             then drain (set_epochs e 2 (e_lepoch e)) else e in
   let fin := e_client e && fl_last_send c (e_flight e) in
   let e2 := if fin then drain (set_epochs e1 3 3) else e1 in
-  let e3 := set_fsm e2 (e_flight e2) Waiting (e_retr e2) (e_reply e2) now (e_interval e2) (now + e_interval e2)
-                    (e_out e2) pend (e_est e2) in
+  let e3 := set_sent (set_fsm e2 (e_flight e2) Waiting (e_retr e2) (e_reply e2) now (e_interval e2) (now + e_interval e2)
+                             (e_out e2) pend (e_est e2)) true in
   if fin && match pend with [] => true | _ => false end
   then let '(e4, o4) := to_finished c e3 now in (e4, out ++ o4)
   else (e3, out).
@@ -450,6 +464,10 @@ Definition acknowledge (e : ep) (acks : list (list frag)) : ep * bool * bool :=
   (set_fsm e (e_flight e) (e_fst e) (e_retr e) (e_reply e) (e_lastsent e) (e_interval e) (e_timer e) out pend (e_est e),
    empty, match hit with [] => false | _ => true end).
 
+(* time.Since(lastSent) < InitialRetransmitInterval/2 (never true before the state machine has sent) *)
+Definition sent_recently (c : cfg) (e : ep) (now : N) : bool :=
+  e_sent e && (2 * (now - e_lastsent e) <? c_initial c).
+
 (* fsm13.transitionAfterACK *)
 Definition after_ack (c : cfg) (e : ep) (empty progress peer : bool) (now : N) : ep * list dgram :=
   if progress && match e_pending e with [] => true | _ => false end then
@@ -457,8 +475,8 @@ Definition after_ack (c : cfg) (e : ep) (empty progress peer : bool) (now : N) :
                       (e_out e) (e_pending e) (e_est e) in
     if fl_last_send c (e_flight e1) then to_finished c e1 now else (e1, [])
   else if peer && e_reply e then
-    if 2 * (now - e_lastsent e) <? c_initial c then (e, []) else do_send c e now
-  else if peer && negb empty && negb progress && (2 * (now - e_lastsent e) <? c_initial c) then
+    if sent_recently c e now then (e, []) else do_send c e now
+  else if peer && negb empty && negb progress && sent_recently c e now then
     (* the flight has just been sent: a repetition by the peer that acknowledges nothing is not
        answered (no zero-delay ping-pong); the timer still retransmits *)
     (e, [])
@@ -562,14 +580,51 @@ Definition on_timer (c : cfg) (e : ep) : ep * list dgram :=
 
 (* both endpoints start in PREPARING: Flight 1 / Flight 0 prepared and sent at time 0 *)
 Definition ep_blank (c : cfg) (client : bool) : ep :=
-  {| e_client := client; e_flight := 0; e_fst := Waiting; e_retr := false; e_reply := false; e_lastsent := 0;
+  {| e_client := client; e_flight := 0; e_fst := Waiting; e_retr := false; e_reply := false; e_lastsent := 0; e_sent := false;
      e_interval := c_initial c; e_timer := 0; e_out := []; e_pending := []; e_est := false;
      e_nstinit := false; e_nst := []; e_nsti := 0; e_nstt := 0;
      e_recvseq := 0; e_fbcur := 0; e_frags := []; e_cache := []; e_repoch := 0; e_lepoch := 0;
      e_queue := []; e_toack := [] |}.
 
+(* ---------- dual-stack client: version negotiation before the state machine starts ----------
+   conn.go negotiateVersionClient: the ClientHello (Flight 1 of the DTLS 1.3 machinery) is written
+   and repeated on the configured schedule by a loop of its own, whose timeout restarts with every
+   datagram it reads; records are buffered as usual but no event reaches a state machine.  Once the
+   server's first message (ServerHello / HelloRetryRequest, message_seq 0) is complete the DTLS 1.3
+   state machine starts in Flight 1, WAITING, with the ClientHello as its flight, its own initial
+   interval, lastSent unset, and is primed with an empty event (primeHandshakeRecv).
+   Flight number 0 of a client stands for this phase. *)
+Definition negotiating (e : ep) : bool :=
+  e_client e && N.eqb (e_flight e) 0 && match e_fst e with Waiting => true | Finished => false end.
+
+Definition neg_start (c : cfg) : ep * list dgram :=
+  let e := ep_blank c true in
+  let out := fl_lookup F1 (c_fl c) in
+  (set_fsm e 0 Waiting true false 0 (c_initial c) (c_initial c) out [] false, pack c out).
+
+Definition neg_timer (c : cfg) (e : ep) : ep * list dgram :=
+  let i := bump c (e_interval e) in
+  (set_fsm e (e_flight e) (e_fst e) (e_retr e) (e_reply e) (e_lastsent e) i (e_timer e + i) (e_out e) (e_pending e) (e_est e),
+   pack c (e_out e)).
+
+Definition neg_datagram (c : cfg) (e : ep) (d : dgram) (now : N) : ep * list dgram :=
+  let '(e1, _, _, _) := process_records true e d in
+  let e2 := set_fsm e1 (e_flight e1) (e_fst e1) (e_retr e1) (e_reply e1) (e_lastsent e1) (e_interval e1)
+                    (now + e_interval e1) (e_out e1) (e_pending e1) (e_est e1) in
+  if has e2 0 HT_SH 0 || has e2 0 HT_HRR 0 then
+    on_event c (set_fsm e2 F1 Waiting true false (e_lastsent e2) (c_initial c) (now + c_initial c) (e_out e2) [] (e_est e2))
+             false false [] [] now
+  else (e2, []).
+
+(* one endpoint: negotiation phase or state machine *)
+Definition ep_datagram (c : cfg) (e : ep) (d : dgram) (now : N) : ep * list dgram :=
+  if negotiating e then neg_datagram c e d now else on_datagram c e d now.
+Definition ep_timer (c : cfg) (e : ep) : ep * list dgram :=
+  if negotiating e then neg_timer c e else on_timer c e.
+
 Definition ep_start (c : cfg) (client : bool) : ep * list dgram :=
-  enter c (ep_blank c client) (if client then F1 else F0) 0.
+  if client && c_dualc c then neg_start c
+  else enter c (ep_blank c client) (if client then F1 else F0) 0.
 Definition ep_init (c : cfg) (client : bool) : ep := fst (ep_start c client).
 
 (* ---------- two endpoints and the scripted network (timed; trace acceptance) ---------- *)
@@ -600,19 +655,19 @@ Fixpoint advance (fuel : nat) (c : cfg) (s : sys) (T : N) : sys :=
       match due (s_c s) T, due (s_s s) T with
       | Some tc, Some ts =>
           if tc <=? ts then
-            let '(e', out) := on_timer c (s_c s) in
+            let '(e', out) := ep_timer c (s_c s) in
             advance fuel' c {| s_c := e'; s_s := s_s s; s_cout := s_cout s ++ stamp tc out; s_sout := s_sout s;
                                s_cseen := s_cseen s; s_sseen := s_sseen s |} T
           else
-            let '(e', out) := on_timer c (s_s s) in
+            let '(e', out) := ep_timer c (s_s s) in
             advance fuel' c {| s_c := s_c s; s_s := e'; s_cout := s_cout s; s_sout := s_sout s ++ stamp ts out;
                                s_cseen := s_cseen s; s_sseen := s_sseen s |} T
       | Some tc, None =>
-          let '(e', out) := on_timer c (s_c s) in
+          let '(e', out) := ep_timer c (s_c s) in
           advance fuel' c {| s_c := e'; s_s := s_s s; s_cout := s_cout s ++ stamp tc out; s_sout := s_sout s;
                              s_cseen := s_cseen s; s_sseen := s_sseen s |} T
       | None, Some ts =>
-          let '(e', out) := on_timer c (s_s s) in
+          let '(e', out) := ep_timer c (s_s s) in
           advance fuel' c {| s_c := s_c s; s_s := e'; s_cout := s_cout s; s_sout := s_sout s ++ stamp ts out;
                              s_cseen := s_cseen s; s_sseen := s_sseen s |} T
       | None, None => s
@@ -639,7 +694,7 @@ Definition do_move (c : cfg) (s0 : sys) (m : move) : option sys :=
         | None => None
         | Some (_, d) =>
             let d := if nmem k (s_cseen s) then unprotected d else d in
-            let '(e', out) := on_datagram c (s_s s) d T in
+            let '(e', out) := ep_datagram c (s_s s) d T in
             Some {| s_c := s_c s; s_s := e'; s_cout := s_cout s; s_sout := s_sout s ++ stamp T out;
                     s_cseen := k :: s_cseen s; s_sseen := s_sseen s |}
         end
@@ -648,18 +703,18 @@ Definition do_move (c : cfg) (s0 : sys) (m : move) : option sys :=
         | None => None
         | Some (_, d) =>
             let d := if nmem k (s_sseen s) then unprotected d else d in
-            let '(e', out) := on_datagram c (s_c s) d T in
+            let '(e', out) := ep_datagram c (s_c s) d T in
             Some {| s_c := e'; s_s := s_s s; s_cout := s_cout s ++ stamp T out; s_sout := s_sout s;
                     s_cseen := s_cseen s; s_sseen := k :: s_sseen s |}
         end
   | Inject tc d T =>
       let s := advance 4096 c s0 T in
       if tc then
-        let '(e', out) := on_datagram c (s_c s) d T in
+        let '(e', out) := ep_datagram c (s_c s) d T in
         Some {| s_c := e'; s_s := s_s s; s_cout := s_cout s ++ stamp T out; s_sout := s_sout s;
                 s_cseen := s_cseen s; s_sseen := s_sseen s |}
       else
-        let '(e', out) := on_datagram c (s_s s) d T in
+        let '(e', out) := ep_datagram c (s_s s) d T in
         Some {| s_c := s_c s; s_s := e'; s_cout := s_cout s; s_sout := s_sout s ++ stamp T out;
                 s_cseen := s_cseen s; s_sseen := s_sseen s |}
   end.
